@@ -92,11 +92,12 @@ class Ctx:
 
     cur: "Ctx | None" = None
 
-    def __init__(self, prefix=(), stats: Stats | None = None, hints=(), range_bound=2, timeout_ms=20000):
+    def __init__(self, prefix=(), stats: Stats | None = None, hints=(), range_bound=2, timeout_ms=120000, rlimit=60_000_000):
         self.prefix = list(prefix)
         self.pos = 0
         self.solver = z3.Solver()
-        self.solver.set("timeout", timeout_ms)
+        self.solver.set("timeout", timeout_ms)  # wall-clock backstop only
+        self.solver.set("rlimit", rlimit)  # deterministic effort cap per query (independent of machine load)
         self.decisions = []
         self.pending = []
         self.stats = stats if stats is not None else Stats()
@@ -321,6 +322,7 @@ def explore(harness, *, max_paths=1000, deadline=None, hints=(), range_bound=2, 
                     cl[1] += 1
                     continue
                 model = c.solver.model()
+                c.notes["neg_clause"] = z3.Not(t)
                 extra = getattr(harness, "extra_models", 0)
                 if len([x for x in stats.cex if x["clause"] == clause]) < keep_cex + extra:
                     try:
